@@ -536,6 +536,15 @@ def r11_b(ctx):
                               for s in p.orelse for x in ast.walk(s))
             ok = in_body and name_ok and role_ok and else_parses
             why = 'name test=%s, skip-role set=%s, else-branch parses=%s' % (name_ok, role_ok, else_parses)
+            # no other test on the environment name may stand between \\begin{name} and this decision
+            if ok:
+                from . import rules_reader
+                others = [t for t, tr in rules_reader._guards_dominating(caller, call)
+                          if t is not p.test and any(isinstance(x, ast.Attribute) and x.attr == 'name' and norm(x.value) == norm(l.value)
+                                                     for x in ast.walk(t))]
+                if others:
+                    ok = False
+                    why = 'the decision also depends on %s' % norm(others[0])[:60]
         rr.ob(ok, {'call_site': '%s:%d' % (caller.qual, call.lineno), 'decision': norm(p.test) if p is not None else None})
         if not ok:
             rr.fail(Finding('R11.b', 'reader', caller.qual, p.test if p is not None else call,
@@ -593,8 +602,27 @@ def r11_d(ctx):
     fmts = [n.value for n in ast.walk(payload['getter'].node) if isinstance(n, ast.Constant) and isinstance(n.value, str)] \
         if kind == 'property' else []
     tests = [n for n in ast.walk(fd.node) if isinstance(n, ast.Call) and isinstance(n.func, ast.Attribute) and n.func.attr == 'startswith']
+    # the scan condition itself (the callable given to forward_until) must be that prefix test
+    scans = [n for n in ast.walk(fd.node) if isinstance(n, ast.Call) and isinstance(n.func, ast.Attribute) and n.func.attr == 'forward_until']
+    for sc in scans:
+        cond = sc.args[0] if sc.args else None
+        body = None
+        if isinstance(cond, ast.Lambda):
+            body = cond.body
+        elif isinstance(cond, ast.Name):
+            for d in ast.walk(fd.node):
+                if isinstance(d, ast.FunctionDef) and d.name == cond.id and d is not fd.node:
+                    rets = [x for x in ast.walk(d) if isinstance(x, ast.Return)]
+                    body = rets[0].value if len(rets) == 1 else None
+        okc = isinstance(body, ast.Call) and isinstance(body.func, ast.Attribute) and body.func.attr == 'startswith'
+        rr.ob(okc, {'scan_condition': norm(body)[:70] if body is not None else None})
+        if not okc:
+            rr.fail(Finding('R11.d', 'reader', fd.qual, body if body is not None else sc, 'the raw scan does not stop on '
+                            'the text-prefix test for the node\'s closer: a look-alike of the closer can end the body early '
+                            '(or the real closer is missed)', line=sc.lineno))
     if not tests:
-        raise AnalysisError('read_skip_env: prefix test vanished')
+        rr.fail(Finding('R11.d', 'reader', fd.qual, 'no prefix test for the closer', 'the raw reader never tests for the '
+                        'closer of the environment', line=fd.node.lineno))
     for tcall in tests:
         a = tcall.args[0] if tcall.args else None
         okf = isinstance(a, ast.BinOp) and isinstance(a.op, ast.Mod) and isinstance(a.left, ast.Constant) and a.left.value in fmts \
